@@ -254,7 +254,8 @@ PROPS["C07"] = dict(
           "urlencoded, multipart form, SSE and multipart/mixed; resolvers echo what they see of the request, so any leak changes the "
           "body; every answer (status, Content-Type, body bytes) must equal the answer of a fresh server whose APQ cache holds exactly "
           "the registrations the model says preceded it; the same pools are replayed from 2-8 goroutines under the race detector. "
-          "A request with a wrong persisted-query hash claims the hash of another text of the pool, so that a later hash-only request for that text shows whether the rejected request left memory",
+          "A request with a wrong persisted-query hash claims the hash of another text of the pool, so that a later hash-only request for that text shows whether the rejected request left memory. "
+          "Websocket: up to six operations (queries, mutations, subscriptions, invalid ones) are started back to back on one connection of a long-lived server; each must receive, under its own id, exactly the frames a fresh server sends when it runs that operation alone on a connection of its own, and no frame may carry an id nobody started",
     note="whether sync.Pool hands the same object to the next request is up to the runtime; websocket sessions are covered by C11",
     technique="differential / metamorphic history testing (rapid) against a fresh-server oracle + Go race detector",
     rule="evaluation = one request compared with a fresh server; non-trivial = a request whose predecessor on the same transport and text "
